@@ -70,3 +70,10 @@ Inductive subseq {A} : list A -> list A -> Prop :=
 Definition is_line (l : bytes) : Prop := exists body, l = body ++ [10] /\ ~ In 10 body.
 Definition lines_of (s : bytes) (ls : list bytes) : Prop :=
   concat ls = s /\ exists init last, ls = init ++ [last] /\ Forall is_line init /\ ~ In 10 last.
+
+(* ---------- stopping the server process ---------- *)
+(* "ends in bounded time ... the server is asked to stop afterwards": whatever the child
+   process does, the wait for it is over after the two periods abort's goroutine waits, and
+   once WaitDelay has passed as well the child is gone or has been sent SIGKILL *)
+Definition stop_deadline (P : params) : N := P.(p_grace) + P.(p_grace2) + P.(p_wd).
+Definition returns_by (o : option N) (bound : N) : Prop := exists t, o = Some t /\ t <= bound.
